@@ -1,7 +1,1226 @@
-//! C10 harness (stub until built)
+//! C10: lexing is lossless and numeric literals are exact.
+//!
+//! request : C10.lex \t t<0|1>i<0|1>b<N> \t <hex of the UTF-8 text>
+//!             t = add the synthetic trailing Endline (TokenStream default), i = `inside_include` passed to every
+//!             `next`, b = bytes of an unrelated fragment registered first (so the base location is not 0)
+//!           C10.emit \t <literal text>      (the literal compiled to HLSL inside a tiny program)
+//! observe : tokens `Kind[:payload] start end` joined by `;` (offsets relative to the file), then ` !err Reason off`
+//!           or ` !panic file:line`; floats are bit patterns, names/strings are hex.
+//! oracle  : (1) spans tile the text in order (only the synthetic final Endline is empty), slices re-emit the text,
+//!           `unlex` gives the text with splice backslashes dropped; error offsets are inside the file;
+//!           (2) every numeric token equals the value of its own slice computed by an exact big-integer reference
+//!           (integers exact or rejected when >= 2^64; floats = nearest double, ties to even, narrowed once for f/h).
 use crate::util::*;
+use rssl::text::tokens::{FollowedBy, PreprocessToken, Token};
+use rssl::text::{Locate, LocateEnd, SourceManager};
+use rssl_preprocess::verif::{LexerError, LexerErrorReason, TokenStream};
+use std::cmp::Ordering;
 
-pub fn run(_args: &Args, _out: &mut Out) {
-    eprintln!("C10: harness not built yet");
-    std::process::exit(2);
+// ------------------------------------------------------------------------------------------------
+// exact arithmetic reference (natural numbers, little-endian base 2^32)
+// ------------------------------------------------------------------------------------------------
+#[derive(Clone, Debug, PartialEq, Eq)]
+pub struct Big(Vec<u32>);
+
+impl Big {
+    pub fn from_u64(v: u64) -> Big {
+        let mut b = Big(vec![v as u32, (v >> 32) as u32]);
+        b.trim();
+        b
+    }
+    fn trim(&mut self) {
+        while let Some(0) = self.0.last() {
+            self.0.pop();
+        }
+    }
+    pub fn is_zero(&self) -> bool {
+        self.0.is_empty()
+    }
+    pub fn mul_small(&mut self, k: u32) {
+        let mut carry: u64 = 0;
+        for w in self.0.iter_mut() {
+            let t = (*w as u64) * (k as u64) + carry;
+            *w = t as u32;
+            carry = t >> 32;
+        }
+        if carry != 0 {
+            self.0.push(carry as u32);
+        }
+        self.trim();
+    }
+    pub fn add_small(&mut self, k: u32) {
+        let mut carry = k as u64;
+        for w in self.0.iter_mut() {
+            if carry == 0 {
+                break;
+            }
+            let t = (*w as u64) + carry;
+            *w = t as u32;
+            carry = t >> 32;
+        }
+        if carry != 0 {
+            self.0.push(carry as u32);
+        }
+    }
+    pub fn shl(&self, bits: u32) -> Big {
+        if self.is_zero() {
+            return Big(vec![]);
+        }
+        let words = (bits / 32) as usize;
+        let sh = bits % 32;
+        let mut out = vec![0u32; words];
+        let mut carry: u32 = 0;
+        for w in &self.0 {
+            if sh == 0 {
+                out.push(*w);
+            } else {
+                out.push((*w << sh) | carry);
+                carry = *w >> (32 - sh);
+            }
+        }
+        if carry != 0 {
+            out.push(carry);
+        }
+        let mut b = Big(out);
+        b.trim();
+        b
+    }
+    pub fn mul(&self, o: &Big) -> Big {
+        if self.is_zero() || o.is_zero() {
+            return Big(vec![]);
+        }
+        let mut out = vec![0u32; self.0.len() + o.0.len() + 1];
+        for (i, a) in self.0.iter().enumerate() {
+            let mut carry: u64 = 0;
+            for (j, b) in o.0.iter().enumerate() {
+                let t = (*a as u64) * (*b as u64) + out[i + j] as u64 + carry;
+                out[i + j] = t as u32;
+                carry = t >> 32;
+            }
+            let mut k = i + o.0.len();
+            while carry != 0 {
+                let t = out[k] as u64 + carry;
+                out[k] = t as u32;
+                carry = t >> 32;
+                k += 1;
+            }
+        }
+        let mut b = Big(out);
+        b.trim();
+        b
+    }
+    pub fn cmp(&self, o: &Big) -> Ordering {
+        if self.0.len() != o.0.len() {
+            return self.0.len().cmp(&o.0.len());
+        }
+        for i in (0..self.0.len()).rev() {
+            if self.0[i] != o.0[i] {
+                return self.0[i].cmp(&o.0[i]);
+            }
+        }
+        Ordering::Equal
+    }
+    pub fn pow10(e: u32) -> Big {
+        let mut b = Big::from_u64(1);
+        for _ in 0..e {
+            b.mul_small(10);
+        }
+        b
+    }
+    /// value of a digit string in the given base (digits already validated)
+    pub fn from_digits(ds: &[u8], base: u32) -> Big {
+        let mut b = Big(vec![]);
+        for d in ds {
+            let v = match *d {
+                b'0'..=b'9' => d - b'0',
+                b'a'..=b'f' => d - b'a' + 10,
+                b'A'..=b'F' => d - b'A' + 10,
+                _ => 0,
+            } as u32;
+            b.mul_small(base);
+            b.add_small(v);
+        }
+        b.trim();
+        b
+    }
+    pub fn to_u64(&self) -> Option<u64> {
+        match self.0.len() {
+            0 => Some(0),
+            1 => Some(self.0[0] as u64),
+            2 => Some(self.0[0] as u64 | (self.0[1] as u64) << 32),
+            _ => None,
+        }
+    }
+}
+
+/// binary floating format: precision p (with the hidden bit), smallest exponent of one unit in the last place
+#[derive(Clone, Copy)]
+pub struct Fmt {
+    p: u32,
+    emin: i32,
+    ebits: u32,
+}
+pub const F64: Fmt = Fmt { p: 53, emin: -1074, ebits: 11 };
+pub const F32: Fmt = Fmt { p: 24, emin: -149, ebits: 8 };
+
+impl Fmt {
+    fn inf(&self) -> u64 {
+        ((1u64 << self.ebits) - 1) << (self.p - 1)
+    }
+    /// (m, q) with value = m * 2^q for a non-negative finite bit pattern
+    fn decode(&self, b: u64) -> (u64, i32) {
+        let e = (b >> (self.p - 1)) as i32;
+        let f = b & ((1u64 << (self.p - 1)) - 1);
+        if e == 0 { (f, self.emin) } else { (f | 1u64 << (self.p - 1), self.emin + e - 1) }
+    }
+}
+
+/// compare num/den with m * 2^q
+fn cmp_rat(num: &Big, den: &Big, m: &Big, q: i32) -> Ordering {
+    if q >= 0 {
+        num.cmp(&m.shl(q as u32).mul(den))
+    } else {
+        num.shl((-q) as u32).cmp(&m.mul(den))
+    }
+}
+
+/// The bit pattern of the value of the format nearest to num/den (>= 0), ties to the even significand,
+/// infinity when the rounded value exceeds the largest finite one. Found by bisection over the (monotone)
+/// non-negative bit patterns with exact comparisons only; no division, no floating point.
+pub fn nearest_bits(num: &Big, den: &Big, f: Fmt) -> u64 {
+    let inf = f.inf();
+    // largest finite b with value(b) <= x
+    let (mut lo, mut hi) = (0u64, inf - 1);
+    while lo < hi {
+        let mid = lo + (hi - lo + 1) / 2;
+        let (m, q) = f.decode(mid);
+        if cmp_rat(num, den, &Big::from_u64(m), q) != Ordering::Less {
+            lo = mid;
+        } else {
+            hi = mid - 1;
+        }
+    }
+    let (m, q) = f.decode(lo);
+    if cmp_rat(num, den, &Big::from_u64(m), q) == Ordering::Equal {
+        return lo;
+    }
+    // halfway point between lo and lo+1 is (2m+1) * 2^(q-1); for the largest finite value lo+1 is infinity
+    let mut half = Big::from_u64(m);
+    half.mul_small(2);
+    half.add_small(1);
+    match cmp_rat(num, den, &half, q - 1) {
+        Ordering::Less => lo,
+        Ordering::Greater => lo + 1,
+        Ordering::Equal => {
+            if lo % 2 == 0 {
+                lo
+            } else {
+                lo + 1
+            }
+        }
+    }
+}
+
+/// nearest double of digits * 10^exp10
+pub fn ref_nearest64(digits: &[u8], exp10: i64) -> u64 {
+    let ds: Vec<u8> = {
+        let t: Vec<u8> = digits.iter().cloned().skip_while(|d| *d == b'0').collect();
+        t
+    };
+    if ds.is_empty() {
+        return 0;
+    }
+    let mag = ds.len() as i64 + exp10; // value < 10^mag, >= 10^(mag-1)
+    if mag > 400 {
+        return F64.inf();
+    }
+    if mag < -400 {
+        return 0;
+    }
+    let d = Big::from_digits(&ds, 10);
+    if exp10 >= 0 {
+        nearest_bits(&d.mul(&Big::pow10(exp10 as u32)), &Big::from_u64(1), F64)
+    } else {
+        nearest_bits(&d, &Big::pow10((-exp10) as u32), F64)
+    }
+}
+
+/// a double narrowed once to single precision (round to nearest, ties to even)
+pub fn ref_narrow32(bits64: u64) -> u32 {
+    if bits64 == F64.inf() {
+        return F32.inf() as u32;
+    }
+    let (m, q) = F64.decode(bits64);
+    let one = Big::from_u64(1);
+    let r = if q >= 0 {
+        nearest_bits(&Big::from_u64(m).shl(q as u32), &one, F32)
+    } else {
+        nearest_bits(&Big::from_u64(m), &one.shl((-q) as u32), F32)
+    };
+    r as u32
+}
+
+// ------------------------------------------------------------------------------------------------
+// reference reading of a numeric literal's own text
+// ------------------------------------------------------------------------------------------------
+#[derive(Debug, PartialEq)]
+pub enum RefNum {
+    Int { kind: &'static str, value: Big },
+    Float { kind: &'static str, bits64: u64 },
+    NotNumeric,
+}
+
+fn strip_int_suffix(t: &[u8]) -> (&[u8], &'static str) {
+    let n = t.len();
+    let low = |b: u8| b.to_ascii_lowercase();
+    if n >= 2 {
+        let (a, b) = (low(t[n - 2]), low(t[n - 1]));
+        if (a == b'u' && b == b'l') || (a == b'l' && b == b'u') {
+            return (&t[..n - 2], "IntU64");
+        }
+    }
+    if n >= 1 {
+        if low(t[n - 1]) == b'u' {
+            return (&t[..n - 1], "IntU32");
+        }
+        if low(t[n - 1]) == b'l' {
+            return (&t[..n - 1], "IntS64");
+        }
+    }
+    (t, "Int")
+}
+
+/// what the text of one numeric token denotes, read independently of the lexer
+pub fn ref_numeric(t: &[u8]) -> RefNum {
+    if t.is_empty() || !(t[0].is_ascii_digit() || t[0] == b'.') {
+        return RefNum::NotNumeric;
+    }
+    let is_hex = t.len() >= 2 && t[0] == b'0' && t[1] == b'x';
+    let floaty = !is_hex && t.iter().any(|c| matches!(c, b'.' | b'e' | b'E' | b'#'));
+    if !floaty {
+        let (body, kind) = strip_int_suffix(t);
+        let value = if is_hex {
+            if body.len() <= 2 || !body[2..].iter().all(|c| c.is_ascii_hexdigit()) {
+                return RefNum::NotNumeric;
+            }
+            Big::from_digits(&body[2..], 16)
+        } else if body.len() >= 2 && body[0] == b'0' && (b'0'..=b'7').contains(&body[1]) {
+            // a leading 0 followed by 8 or 9 is read as decimal by rssl (`09` is 9); C rejects it
+            if !body.iter().all(|c| (b'0'..=b'7').contains(c)) {
+                return RefNum::NotNumeric;
+            }
+            Big::from_digits(body, 8)
+        } else {
+            if body.is_empty() || !body.iter().all(|c| c.is_ascii_digit()) {
+                return RefNum::NotNumeric;
+            }
+            Big::from_digits(body, 10)
+        };
+        return RefNum::Int { kind, value };
+    }
+    // float: digits [. digits] [e [+-] digits] [#INF] [hHfFlL]
+    let mut i = 0;
+    let mut digits: Vec<u8> = Vec::new();
+    while i < t.len() && t[i].is_ascii_digit() {
+        digits.push(t[i]);
+        i += 1;
+    }
+    let mut frac = 0i64;
+    if i < t.len() && t[i] == b'.' {
+        i += 1;
+        while i < t.len() && t[i].is_ascii_digit() {
+            digits.push(t[i]);
+            frac += 1;
+            i += 1;
+        }
+    }
+    if digits.is_empty() {
+        return RefNum::NotNumeric;
+    }
+    let mut exp: i64 = 0;
+    let mut has_exp = false;
+    if i < t.len() && (t[i] == b'e' || t[i] == b'E') {
+        has_exp = true;
+        i += 1;
+        let mut neg = false;
+        if i < t.len() && (t[i] == b'+' || t[i] == b'-') {
+            neg = t[i] == b'-';
+            i += 1;
+        }
+        let s = i;
+        let mut e = Big(vec![]);
+        while i < t.len() && t[i].is_ascii_digit() {
+            e.mul_small(10);
+            e.add_small((t[i] - b'0') as u32);
+            i += 1;
+        }
+        if s == i {
+            return RefNum::NotNumeric;
+        }
+        // exponents far outside any float are clamped (the value is 0 or infinity either way)
+        let ev = e.to_u64().filter(|v| *v < 1_000_000_000).unwrap_or(1_000_000_000) as i64;
+        exp = if neg { -ev } else { ev };
+    }
+    let mut bits64 = ref_nearest64(&digits, exp - frac);
+    if t[i..].starts_with(b"#INF") {
+        // the HLSL spelling of infinity: only on a non-zero literal without exponent
+        if has_exp || bits64 == 0 {
+            return RefNum::NotNumeric;
+        }
+        bits64 = F64.inf();
+        i += 4;
+    }
+    let kind = match &t[i..] {
+        [] => "Float",
+        [b'h'] | [b'H'] => "Float16",
+        [b'f'] | [b'F'] => "Float32",
+        [b'l'] | [b'L'] => "Float64",
+        _ => return RefNum::NotNumeric,
+    };
+    RefNum::Float { kind, bits64 }
+}
+
+// ------------------------------------------------------------------------------------------------
+// running the real lexer
+// ------------------------------------------------------------------------------------------------
+fn show_token(t: &Token) -> String {
+    let fb = |f: &FollowedBy| match f {
+        FollowedBy::Token => "T",
+        FollowedBy::Whitespace => "W",
+    };
+    match t {
+        Token::Id(id) => format!("Id:{}", hex(id.0.as_bytes())),
+        Token::LiteralInt(v) => format!("Int:{}", v),
+        Token::LiteralIntUnsigned32(v) => format!("IntU32:{}", v),
+        Token::LiteralIntUnsigned64(v) => format!("IntU64:{}", v),
+        Token::LiteralIntSigned64(v) => format!("IntS64:{}", v),
+        Token::LiteralFloat(v) => format!("Float:{:016x}", v.to_bits()),
+        Token::LiteralFloat16(v) => format!("Float16:{:08x}", v.to_bits()),
+        Token::LiteralFloat32(v) => format!("Float32:{:08x}", v.to_bits()),
+        Token::LiteralFloat64(v) => format!("Float64:{:016x}", v.to_bits()),
+        Token::LiteralString(s) => format!("String:{}", hex(s.as_bytes())),
+        Token::HeaderName(s) => format!("HeaderName:{}", hex(s.as_bytes())),
+        Token::ReservedWord(s) => format!("ReservedWord:{}", hex(s.as_bytes())),
+        Token::LeftAngleBracket(f) => format!("LeftAngleBracket:{}", fb(f)),
+        Token::RightAngleBracket(f) => format!("RightAngleBracket:{}", fb(f)),
+        Token::MacroArg(n) => format!("MacroArg:{}", n),
+        other => format!("{:?}", other),
+    }
+}
+
+pub struct Flags {
+    pub trail: bool,
+    pub inc: bool,
+    pub base: u32,
+}
+
+pub fn parse_flags(s: &str) -> Option<Flags> {
+    let b = s.as_bytes();
+    if b.len() < 5 || b[0] != b't' || b[2] != b'i' || b[4] != b'b' {
+        return None;
+    }
+    Some(Flags { trail: b[1] == b'1', inc: b[3] == b'1', base: s[5..].parse().ok()? })
+}
+
+struct Lexed {
+    toks: Vec<(Token, u32, u32)>,
+    /// Err(reason, offset) or panic text
+    err: Option<Result<(String, u32), String>>,
+    unlexed: Option<String>,
+    whole: Option<String>,
+}
+
+fn lex_real(text: &str, fl: &Flags) -> Lexed {
+    let mut sm = SourceManager::new();
+    if fl.base > 0 {
+        sm.add_fragment(&"#".repeat(fl.base as usize - 1));
+    }
+    let (_fid, base) = sm.add_fragment(text);
+    let braw = base.get_raw();
+    let mut ts = TokenStream::new(text, base);
+    if !fl.trail {
+        ts = ts.suppress_trailing_endline();
+    }
+    let mut raw: Vec<PreprocessToken> = Vec::new();
+    let mut err = None;
+    loop {
+        if ts.end_of_stream() {
+            break;
+        }
+        match guard(|| ts.next(fl.inc)) {
+            Ok(Ok(t)) => raw.push(t),
+            Ok(Err(LexerError { reason, location })) => {
+                err = Some(Ok((format!("{:?}", reason), location.get_raw().wrapping_sub(braw))));
+                let _ = LexerErrorReason::EndOfStream;
+                break;
+            }
+            Err(p) => {
+                err = Some(Err(p));
+                break;
+            }
+        }
+        if raw.len() > text.len() + 2 {
+            err = Some(Err("harness: no progress".into()));
+            break;
+        }
+    }
+    let toks = raw
+        .iter()
+        .map(|t| {
+            (
+                t.0.clone(),
+                t.get_location().get_raw().wrapping_sub(braw),
+                t.get_end_location().get_raw().wrapping_sub(braw),
+            )
+        })
+        .collect();
+    // the library entry point must say the same thing as the token-by-token loop
+    let whole = if !fl.inc {
+        let r = guard(|| rssl_preprocess::verif::lex(text, base, fl.trail));
+        Some(match r {
+            Ok(Ok(v)) => {
+                if v == raw && err.is_none() {
+                    "same".to_string()
+                } else {
+                    "read_to_end: different tokens".to_string()
+                }
+            }
+            Ok(Err(e)) => match &err {
+                Some(Ok((r, o))) if *r == format!("{:?}", e.reason) && *o == e.location.get_raw().wrapping_sub(braw) => {
+                    "same".to_string()
+                }
+                _ => "read_to_end: different error".to_string(),
+            },
+            Err(p) => match &err {
+                Some(Err(q)) if *q == p => "same".to_string(),
+                _ => format!("read_to_end: panic {}", p),
+            },
+        })
+    } else {
+        None
+    };
+    let unlexed = if err.is_none() {
+        guard(|| rssl_preprocess::unlex(&raw, &sm)).ok()
+    } else {
+        None
+    };
+    Lexed { toks, err, unlexed, whole }
+}
+
+/// name of a panic site of TokenStream::next (the model uses the same names)
+fn canonical_panic(p: &str) -> String {
+    if p.contains("as_ptr_range") {
+        "static-rest".into()
+    } else if p.contains("last_was_endline") {
+        "last-was-endline".into()
+    } else if p.contains("current_offset < next_location") {
+        "no-progress".into()
+    } else if p.contains("current_offset <= error_offset") {
+        "error-before-token".into()
+    } else if p.contains("input.len(), rest.len()") || p.contains("left == right") {
+        "other-token-len".into()
+    } else {
+        p.to_string()
+    }
+}
+
+fn is_numeric(t: &Token) -> bool {
+    matches!(
+        t,
+        Token::LiteralInt(_)
+            | Token::LiteralIntUnsigned32(_)
+            | Token::LiteralIntUnsigned64(_)
+            | Token::LiteralIntSigned64(_)
+            | Token::LiteralFloat(_)
+            | Token::LiteralFloat16(_)
+            | Token::LiteralFloat32(_)
+            | Token::LiteralFloat64(_)
+    )
+}
+
+/// the property's oracle for one numeric token against the reference reading of its own text
+fn numeric_oracle(tok: &Token, slice: &[u8]) -> Result<(), String> {
+    let txt = String::from_utf8_lossy(slice).to_string();
+    match (ref_numeric(slice), tok) {
+        (RefNum::Int { kind, value }, t) => {
+            let v = match value.to_u64() {
+                Some(v) => v,
+                None => return Err(format!("int {} does not fit 64 bits but was accepted", txt)),
+            };
+            let (k, got): (&str, i128) = match t {
+                Token::LiteralInt(x) => ("Int", *x as i128),
+                Token::LiteralIntUnsigned32(x) => ("IntU32", *x as i128),
+                Token::LiteralIntUnsigned64(x) => ("IntU64", *x as i128),
+                Token::LiteralIntSigned64(x) => ("IntS64", *x as i128),
+                _ => return Err(format!("int text {} lexed as {}", txt, show_token(t))),
+            };
+            if k != kind {
+                return Err(format!("int {} has kind {} expected {}", txt, k, kind));
+            }
+            if got != v as i128 {
+                return Err(format!("int {} denotes {} but the token holds {}", txt, v, got));
+            }
+            Ok(())
+        }
+        (RefNum::Float { kind, bits64 }, t) => {
+            let (k, got): (&str, u64) = match t {
+                Token::LiteralFloat(x) => ("Float", x.to_bits()),
+                Token::LiteralFloat64(x) => ("Float64", x.to_bits()),
+                Token::LiteralFloat16(x) => ("Float16", x.to_bits() as u64),
+                Token::LiteralFloat32(x) => ("Float32", x.to_bits() as u64),
+                _ => return Err(format!("float text {} lexed as {}", txt, show_token(t))),
+            };
+            if k != kind {
+                return Err(format!("float {} has kind {} expected {}", txt, k, kind));
+            }
+            let want = if k == "Float16" || k == "Float32" { ref_narrow32(bits64) as u64 } else { bits64 };
+            if got != want {
+                return Err(format!("float {} is {:x} but the nearest value is {:x}", txt, got, want));
+            }
+            Ok(())
+        }
+        (RefNum::NotNumeric, t) => Err(format!("text {} is not a numeric literal but lexed as {}", txt, show_token(t))),
+    }
+}
+
+pub fn run_lex(text: &str, fl: &Flags, hist: &mut Hist) -> (String, String) {
+    let bytes = text.as_bytes();
+    let n = bytes.len() as u32;
+    let lx = lex_real(text, fl);
+    let mut obs: Vec<String> = lx.toks.iter().map(|(t, s, e)| format!("{} {} {}", show_token(t), s, e)).collect();
+    for (t, _, _) in &lx.toks {
+        let name = show_token(t);
+        hist.add(&format!("tok.{}", name.split(':').next().unwrap_or("")));
+    }
+    let mut obs = obs.drain(..).collect::<Vec<_>>().join(";");
+    match &lx.err {
+        Some(Ok((r, o))) => {
+            obs.push_str(&format!(" !err {} {}", r, o));
+            hist.add(&format!("err.{}", r));
+        }
+        Some(Err(p)) => {
+            obs.push_str(&format!(" !panic {}", canonical_panic(p)));
+            hist.add(&format!("panic.{}", canonical_panic(p)));
+        }
+        None => hist.add("ok"),
+    }
+    // ---- oracle
+    let mut fails: Vec<String> = Vec::new();
+    // spans of the tokens produced so far are contiguous from 0, in order, non-empty
+    let mut pos = 0u32;
+    for (i, (t, s, e)) in lx.toks.iter().enumerate() {
+        if *s != pos {
+            fails.push(format!("token {} starts at {} but the previous one ended at {}", i, s, pos));
+            break;
+        }
+        if *e < *s || *e > n {
+            fails.push(format!("token {} span {}..{} outside the file of {} bytes", i, s, e, n));
+            break;
+        }
+        let synthetic = fl.trail && *t == Token::Endline && *s == n && i + 1 == lx.toks.len();
+        if *e == *s && !synthetic {
+            fails.push(format!("token {} is empty at {}", i, s));
+            break;
+        }
+        pos = *e;
+    }
+    match &lx.err {
+        None => {
+            if fails.is_empty() && pos != n {
+                fails.push(format!("tokens cover {} of {} bytes", pos, n));
+            }
+            if fails.is_empty() {
+                let mut re: Vec<u8> = Vec::new();
+                for (_, s, e) in &lx.toks {
+                    re.extend_from_slice(&bytes[*s as usize..*e as usize]);
+                }
+                if re != bytes {
+                    fails.push("slices do not re-emit the input".into());
+                }
+                // unlex: the same, with the backslash of each line splice dropped and "\n" for the synthetic endline
+                let mut want: Vec<u8> = Vec::new();
+                for (t, s, e) in &lx.toks {
+                    let sl = &bytes[*s as usize..*e as usize];
+                    if *t == Token::PhysicalEndline {
+                        want.extend_from_slice(&sl[1..]);
+                    } else if s == e {
+                        want.push(b'\n');
+                    } else {
+                        want.extend_from_slice(sl);
+                    }
+                }
+                match &lx.unlexed {
+                    Some(u) if u.as_bytes() == &want[..] => {}
+                    Some(u) => fails.push(format!("unlex gives {:?}", u)),
+                    None => fails.push("unlex panicked".into()),
+                }
+            }
+        }
+        Some(Ok((reason, off))) => {
+            if *off > n {
+                fails.push(format!("diagnostic position {} is outside the file of {} bytes", off, n));
+            } else if *off < pos {
+                fails.push(format!("diagnostic position {} is before the failing token at {}", off, pos));
+            }
+            if reason == "IntegerLiteralTooLarge" && fails.is_empty() {
+                // the rejected literal must really not fit
+                let t = &bytes[pos as usize..];
+                let (dstart, base): (usize, u32) = if t.starts_with(b"0x") {
+                    (2, 16)
+                } else if t.len() >= 2 && t[0] == b'0' && (b'0'..=b'7').contains(&t[1]) {
+                    (1, 8)
+                } else {
+                    (0, 10)
+                };
+                let ds: Vec<u8> = t[dstart..]
+                    .iter()
+                    .cloned()
+                    .take_while(|c| match base {
+                        16 => c.is_ascii_hexdigit(),
+                        8 => (b'0'..=b'7').contains(c),
+                        _ => c.is_ascii_digit(),
+                    })
+                    .collect();
+                if Big::from_digits(&ds, base).to_u64().is_some() {
+                    fails.push(format!("integer {} fits in 64 bits but was rejected", String::from_utf8_lossy(&ds)));
+                }
+                if *off != pos + dstart as u32 {
+                    fails.push(format!("too-large diagnostic at {} expected {}", off, pos + dstart as u32));
+                }
+            }
+        }
+        Some(Err(p)) => fails.push(format!("panic {}", p)),
+    }
+    if let Some(w) = &lx.whole {
+        if w != "same" {
+            fails.push(w.clone());
+        }
+    }
+    if fails.is_empty() {
+        for (t, s, e) in &lx.toks {
+            if is_numeric(t) {
+                hist.add("numeric_tokens_checked");
+                if let Err(m) = numeric_oracle(t, &bytes[*s as usize..*e as usize]) {
+                    fails.push(m);
+                }
+            }
+        }
+    }
+    let oracle = if fails.is_empty() { "ok".to_string() } else { format!("FAIL:{}", fails[0]) };
+    (obs, oracle)
+}
+
+// ------------------------------------------------------------------------------------------------
+// generators
+// ------------------------------------------------------------------------------------------------
+const WORDS: &[&str] = &[
+    "if", "else", "for", "while", "do", "switch", "return", "break", "continue", "discard", "case", "default",
+    "struct", "class", "enum", "typedef", "cbuffer", "register", "packoffset", "namespace", "true", "false", "in",
+    "out", "inout", "const", "volatile", "row_major", "column_major", "unorm", "snorm", "extern", "static", "inline",
+    "groupshared", "constexpr", "sizeof", "template", "typename", "decltype", "auto", "catch", "char", "const_cast",
+    "delete", "dynamic_cast", "explicit", "friend", "goto", "long", "mutable", "new", "operator", "private",
+    "protected", "public", "reinterpret_cast", "short", "signed", "static_cast", "this", "throw", "try", "union",
+    "unsigned", "using", "virtual",
+];
+const IDENTS: &[&str] = &[
+    "x", "y", "a", "_", "_1", "e5", "E", "f", "h", "l", "u", "ul", "INF", "x0", "truea", "iff", "If", "float4",
+    "include", "define", "xyz", "A_b9", "L", "F", "lu", "ull", "__x", "o0x1",
+];
+const OPS: &[&str] = &[
+    ";", ",", "+", "++", "+=", "-", "--", "-=", "/", "/=", "%", "%=", "*", "*=", "&", "&&", "&=", "|", "||", "|=",
+    "^", "^=", "!", "!=", "=", "==", "#", "##", "@", "~", ".", ":", "::", "?", "{", "}", "(", ")", "[", "]", "<", ">",
+    "<<", ">>", "<=", ">=", "<<=", "->", "...", "<>", "><", "=#", "%%", "**", "^^", "!!", "===",
+];
+const TRIVIA: &[&str] = &[
+    " ", "  ", "\t", "\n", "\r\n", "\\\n", "\\\r\n", " \n", "//c\n", "// c \\\n d\n", "//", "//x", "//\\\n", "//\r\n",
+    "/**/", "/* c */", "/*\n*/", "/* * / */", "/*/", "/***/", "/*a*/", "//a\\\r\nb\r\n",
+];
+const ODD: &[&str] = &[
+    "\r", "\\", "\\ ", "$", "`", "'", "\u{a3}", "\u{20ac}", "\u{0}", "\u{b}", "\u{c}", "\"", "\"a", "\"\n\"", "/*",
+    "/* x", "/*/ ", "\u{feff}", "\u{1f600}", "\r\r\n", "\\\r", "<a", "<a\n>",
+];
+const STRINGS: &[&str] = &["\"\"", "\"a\"", "\"a b\"", "\"\u{a3}\"", "\"//\"", "\"/*\"", "\"\\\"", "<a.h>", "<>", "\"a\\\n\""];
+const INT_SUFFIX: &[&str] = &["", "u", "U", "l", "L", "ul", "uL", "Ul", "UL", "lu", "lU", "Lu", "LU"];
+const FLOAT_SUFFIX: &[&str] = &["", "h", "H", "f", "F", "l", "L"];
+const BAD_SUFFIX: &[&str] = &["x", "xy", "p", "_", "f0", "ff", "lf", "ull", "uu", "ll", "e", "e+", "E-", "xe", "#INF", "#IN", "#INFf", "#INFx", ".x", ".0", ".", "..", ".f", ".e1", "0x"];
+
+fn rand_digits(rng: &mut Rng, n: usize, base: u32) -> String {
+    let alph: &[u8] = match base {
+        16 => b"0123456789abcdefABCDEF",
+        8 => b"01234567",
+        _ => b"0123456789",
+    };
+    (0..n).map(|_| *rng.pick(alph) as char).collect()
+}
+
+/// integer spellings: boundary biased
+fn gen_int(rng: &mut Rng, hist: &mut Hist) -> String {
+    let base = *rng.pick(&[10u32, 10, 10, 16, 16, 8]);
+    const EDGES: &[u128] = &[
+        0, 1, 7, 8, 9, 10, 255, 256, 65535, 65536,
+        (1 << 31) - 1, 1 << 31, (1 << 31) + 1, (1 << 32) - 1, 1 << 32, (1 << 32) + 1,
+        (1 << 63) - 1, 1 << 63, (1 << 63) + 1, (1 << 64) - 1, 1 << 64, (1 << 64) + 1,
+        (1 << 64) + 10, 10 * (1 << 64), (1 << 65) - 1, 1 << 65, 1 << 80, (1 << 64) * 16 - 1, (1 << 64) * 8,
+        1844674407370955161, 18446744073709551610, 18446744073709551619, 18446744073709551620,
+    ];
+    let body = match rng.below(10) {
+        0..=3 => {
+            hist.add("int.edge");
+            let mut v = *rng.pick(EDGES);
+            if rng.chance(1, 3) {
+                v = v.wrapping_add(rng.below(5) as u128).wrapping_sub(2).min(u128::MAX / 2);
+            }
+            match base {
+                16 => {
+                    if rng.chance(1, 2) {
+                        format!("{:x}", v)
+                    } else {
+                        format!("{:X}", v)
+                    }
+                }
+                8 => format!("{:o}", v),
+                _ => format!("{}", v),
+            }
+        }
+        4..=6 => {
+            hist.add("int.random");
+            let n = rng.range(1, 25) as usize;
+            rand_digits(rng, n, base)
+        }
+        7 => {
+            hist.add("int.leading_zeros");
+            let z = rng.range(1, 6) as usize;
+            let n = rng.range(1, 19) as usize;
+            format!("{}{}", "0".repeat(z), rand_digits(rng, n, base))
+        }
+        _ => {
+            hist.add("int.near_2^64");
+            // 20-digit decimals / 16-17 digit hex / 22-digit octal around the limit
+            match base {
+                16 => format!("{}{}", rng.pick(&["f", "F", "1", "10", "0f"]), rand_digits(rng, 15, 16)),
+                8 => format!("{}{}", rng.pick(&["1", "2", "17", "20", "01"]), rand_digits(rng, 21, 8)),
+                _ => format!("1844674407370955{}", rand_digits(rng, 4, 10)),
+            }
+        }
+    };
+    let prefix = match base {
+        16 => "0x",
+        8 => "0",
+        _ => "",
+    };
+    hist.add(&format!("int.base{}", base));
+    format!("{}{}{}", prefix, body, rng.pick(INT_SUFFIX))
+}
+
+/// decimal floats: biased to halfway cases, subnormals, overflow
+fn gen_float(rng: &mut Rng, hist: &mut Hist) -> String {
+    let (digits, exp10): (String, i64) = match rng.below(12) {
+        0..=2 => {
+            hist.add("float.random");
+            let n = rng.range(1, 20) as usize;
+            (rand_digits(rng, n, 10), rng.range(-330, 310))
+        }
+        3 => {
+            hist.add("float.short_common");
+            let n = rng.range(1, 7) as usize;
+            (rand_digits(rng, n, 10), rng.range(-8, 3))
+        }
+        4 | 5 => {
+            // decimal expansion of an exact halfway point between two adjacent doubles (or one digit off)
+            hist.add("float.halfway64");
+            let b = match rng.below(4) {
+                0 => rng.below(1 << 53),                               // subnormal / small
+                1 => (rng.range(1000, 1100) as u64) << 52 | rng.below(1 << 52), // around 1
+                2 => 0x7fe0_0000_0000_0000 | rng.below(1 << 52),       // top binade (overflow boundary)
+                _ => rng.below(0x7ff0_0000_0000_0000),
+            };
+            halfway_decimal(b, F64, rng, hist)
+        }
+        6 => {
+            // halfway between two adjacent floats, then through the double: the double-rounding cases
+            hist.add("float.halfway32");
+            let b = match rng.below(3) {
+                0 => rng.below(1 << 24),
+                1 => (rng.range(100, 150) as u64) << 23 | rng.below(1 << 23),
+                _ => rng.below(0x7f80_0000),
+            };
+            halfway_decimal(b, F32, rng, hist)
+        }
+        7 => {
+            hist.add("float.subnormal_edge");
+            let s = *rng.pick(&["49406564584124654", "24703282292062327", "24703282292062328", "22250738585072011",
+                "22250738585072014", "22250738585072009", "4940656458412465", "2470328229206232", "1", "3", "5"]);
+            (s.to_string(), -324 - (s.len() as i64 - 1) + rng.range(-1, 1))
+        }
+        8 => {
+            hist.add("float.overflow_edge");
+            let s = *rng.pick(&["17976931348623157", "17976931348623158", "17976931348623159", "179769313486231580793",
+                "179769313486231580794", "1797693134862315807", "34028234663852886", "34028235677973366", "340282356779733661637",
+                "3402823567797336616", "1", "2", "9"]);
+            let top = if s.starts_with("34") { 38 } else { 308 };
+            (s.to_string(), top - (s.len() as i64 - 1) + rng.range(-1, 1))
+        }
+        9 => {
+            hist.add("float.exact_pow2");
+            // m * 2^k written out exactly (representable: the reference must return it unchanged)
+            let m = rng.below(1 << 20) + 1;
+            let k = rng.range(0, 40) as u32;
+            let v = (m as u128) << k;
+            (format!("{}", v), 0)
+        }
+        10 => {
+            hist.add("float.huge_exponent");
+            let n = rng.range(1, 5) as usize;
+            (rand_digits(rng, n, 10), *rng.pick(&[400, 5000, 99999, 4294967296, 9223372036854775807, -400, -5000, -4294967297, -9223372036854775807]))
+        }
+        _ => {
+            hist.add("float.zero_or_padded");
+            let n = rng.range(0, 4) as usize;
+            let body = if rng.chance(1, 2) { "0".to_string() } else { rand_digits(rng, 3, 10) };
+            (format!("{}{}", "0".repeat(n), body), rng.range(-330, 310))
+        }
+    };
+    // spell digits * 10^exp10 in one of the lexer's float forms
+    let n = digits.len() as i64;
+    let form = rng.below(5);
+    let (mant, e) = match form {
+        0 => (format!("{}.", digits), exp10),                         // "123."
+        1 => (format!(".{}", digits), exp10.saturating_add(n)),                   // ".123"
+        2 if n > 1 => {
+            let k = rng.range(1, n - 1);
+            (format!("{}.{}", &digits[..k as usize], &digits[k as usize..]), exp10.saturating_add(n - k))
+        }
+        3 => (format!("{}.0", digits), exp10),
+        _ => (digits.clone(), exp10), // no fraction: the exponent is mandatory
+    };
+    let need_exp = form >= 4 || (form == 2 && n <= 1);
+    let es = if e == 0 && !need_exp && rng.chance(1, 2) {
+        String::new()
+    } else {
+        let letter = if rng.chance(1, 2) { "e" } else { "E" };
+        let sign = if e < 0 { "-" } else if rng.chance(1, 2) { "+" } else { "" };
+        format!("{}{}{}", letter, sign, e.unsigned_abs())
+    };
+    format!("{}{}{}", mant, es, rng.pick(FLOAT_SUFFIX))
+}
+
+/// digits and exponent of the exact midpoint between bit patterns b and b+1 of the format, optionally nudged in
+/// the last written digit or truncated to 20 significant digits
+fn halfway_decimal(b: u64, f: Fmt, rng: &mut Rng, hist: &mut Hist) -> (String, i64) {
+    let (m, q) = f.decode(b);
+    // midpoint = (2m+1) * 2^(q-1); as a decimal: (2m+1) * 5^(1-q) * 10^(q-1) when q < 1
+    let mut num = Big::from_u64(2 * m + 1);
+    let e10: i64;
+    if q - 1 >= 0 {
+        num = num.shl((q - 1) as u32);
+        e10 = 0;
+    } else {
+        for _ in 0..(1 - q) {
+            num.mul_small(5);
+        }
+        e10 = (q - 1) as i64;
+    }
+    let mut s = big_to_decimal(&num);
+    let mut e = e10;
+    match rng.below(4) {
+        0 => hist.add("float.halfway.exact"),
+        1 => {
+            hist.add("float.halfway.plus1");
+            s.push('1');
+            e -= 1;
+        }
+        2 => {
+            hist.add("float.halfway.minus1");
+            // subtract one unit in a further digit: ...d000 -> ...(d-1)999 ; cheap version: append "0" and decrement
+            let mut v = Big::from_digits(s.as_bytes(), 10);
+            v.mul_small(10);
+            let dec = big_to_decimal(&v);
+            s = decrement_decimal(&dec);
+            e -= 1;
+        }
+        _ => {
+            hist.add("float.halfway.truncated20");
+            if s.len() > 20 {
+                e += (s.len() - 20) as i64;
+                s.truncate(20);
+            }
+        }
+    }
+    (s, e)
+}
+
+fn decrement_decimal(s: &str) -> String {
+    let mut b: Vec<u8> = s.bytes().collect();
+    let mut i = b.len();
+    while i > 0 {
+        i -= 1;
+        if b[i] == b'0' {
+            b[i] = b'9';
+        } else {
+            b[i] -= 1;
+            break;
+        }
+    }
+    String::from_utf8(b).unwrap()
+}
+
+fn big_to_decimal(v: &Big) -> String {
+    // repeated division by 10^9
+    let mut w = v.0.clone();
+    let mut parts: Vec<u32> = Vec::new();
+    while !w.is_empty() {
+        let mut rem: u64 = 0;
+        for i in (0..w.len()).rev() {
+            let cur = (rem << 32) | w[i] as u64;
+            w[i] = (cur / 1_000_000_000) as u32;
+            rem = cur % 1_000_000_000;
+        }
+        while let Some(0) = w.last() {
+            w.pop();
+        }
+        parts.push(rem as u32);
+    }
+    if parts.is_empty() {
+        return "0".into();
+    }
+    let mut s = format!("{}", parts[parts.len() - 1]);
+    for p in parts.iter().rev().skip(1) {
+        s.push_str(&format!("{:09}", p));
+    }
+    s
+}
+
+fn gen_item(rng: &mut Rng, hist: &mut Hist) -> String {
+    match rng.below(20) {
+        0 | 1 => rng.pick(WORDS).to_string(),
+        2 | 3 => rng.pick(IDENTS).to_string(),
+        4 | 5 => gen_int(rng, hist),
+        6 | 7 => gen_float(rng, hist),
+        8..=10 => rng.pick(OPS).to_string(),
+        11..=14 => rng.pick(TRIVIA).to_string(),
+        15 => rng.pick(STRINGS).to_string(),
+        16 => rng.pick(ODD).to_string(),
+        17 => {
+            // a numeral glued to a strange tail
+            let head = if rng.chance(1, 2) { gen_int(rng, hist) } else { gen_float(rng, hist) };
+            format!("{}{}", head, rng.pick(BAD_SUFFIX))
+        }
+        18 => {
+            let n = rng.range(1, 6) as usize;
+            (0..n).map(|_| *rng.pick(&['<', '>', '<', '>', '=', ' '])).collect()
+        }
+        _ => {
+            let n = rng.range(1, 5) as usize;
+            let alph: Vec<char> = "01.eE+-xfhlLuU#INF_a \n\\\r/*\"<>".chars().collect();
+            (0..n).map(|_| *rng.pick(&alph)).collect()
+        }
+    }
+}
+
+/// `C10.emit`: the literal inside a tiny function, compiled to HLSL; observation = the emitted statement
+pub fn run_emit(ty: &str, lit: &str) -> (String, String) {
+    let src = if ty == "-" {
+        format!("void f() {{ {}; }}\n", lit)
+    } else {
+        format!("void f(out {} r) {{ r = {}; }}\n", ty, lit)
+    };
+    let mut inc = MemFiles(vec![("main.rssl".to_string(), src)]);
+    let r = guard(|| {
+        rssl::compile(
+            rssl::CompileArgs::new("main.rssl", &mut inc, rssl::Target::HlslForDirectX).no_pipeline_mode(),
+        )
+    });
+    match r {
+        Err(p) => (format!("!panic {}", p), format!("FAIL:panic {}", p)),
+        Ok(Err(e)) => {
+            let msg = format!("{}", e);
+            // "or is rejected if it does not fit in 64 bits": a rejection for size must be justified
+            let orc = if msg.contains("integer literal is too large") {
+                match ref_numeric(lit.as_bytes()) {
+                    RefNum::Int { value, .. } if value.to_u64().is_some() => {
+                        format!("FAIL:emit integer literal {} fits in 64 bits but was rejected as too large", lit)
+                    }
+                    _ => "ok".to_string(),
+                }
+            } else {
+                "SKIP:rejected by the front end".to_string()
+            };
+            (format!("!error {}", one_line(&msg).chars().take(160).collect::<String>()), orc)
+        }
+        Ok(Ok(ps)) => {
+            let text: String = ps.iter().map(|p| String::from_utf8_lossy(&p.data).to_string()).collect();
+            let stmt = text
+                .lines()
+                .find(|l| l.trim_start().starts_with("r = ") || (ty == "-" && l.starts_with("    ")))
+                .map(|l| l.trim().to_string())
+                .unwrap_or_else(|| one_line(&text));
+            let printed = stmt.trim_start_matches("r = ").trim_end_matches(';').to_string();
+            (stmt, emit_oracle(lit, &printed))
+        }
+    }
+}
+
+/// "that value appears unchanged in the output": the emitted literal, read by the same reference grammar,
+/// must have the kind and the value of the source literal
+fn emit_oracle(lit: &str, printed: &str) -> String {
+    let a = ref_numeric(lit.as_bytes());
+    let b = ref_numeric(printed.as_bytes());
+    match (&a, &b) {
+        (RefNum::NotNumeric, _) => "SKIP:source text is not one numeric literal".into(),
+        (RefNum::Int { kind: k1, value: v1 }, RefNum::Int { kind: k2, value: v2 }) => {
+            if k1 != k2 {
+                format!("FAIL:emit int literal {} printed as {} (kind {} became {})", lit, printed, k1, k2)
+            } else if v1 != v2 {
+                format!("FAIL:emit {} literal {} printed as {}", k1, lit, printed)
+            } else {
+                "ok".into()
+            }
+        }
+        (RefNum::Float { kind: k1, bits64: b1 }, RefNum::Float { kind: k2, bits64: b2 }) => {
+            let narrow = |k: &str, b: u64| if k == "Float16" || k == "Float32" { ref_narrow32(b) as u64 } else { b };
+            if k1 != k2 {
+                format!("FAIL:emit float literal {} printed as {} (kind {} became {})", lit, printed, k1, k2)
+            } else if narrow(k1, *b1) != narrow(k2, *b2) {
+                format!(
+                    "FAIL:emit {} literal {} ({:x}) printed as {} ({:x})",
+                    k1, lit, narrow(k1, *b1), printed, narrow(k2, *b2)
+                )
+            } else {
+                "ok".into()
+            }
+        }
+        (RefNum::Float { kind, .. }, RefNum::Int { .. }) => {
+            format!("FAIL:emit {} literal {} printed as integer literal {}", kind, lit, printed)
+        }
+        (RefNum::Int { kind, .. }, RefNum::Float { .. }) => {
+            format!("FAIL:emit {} literal {} printed as float literal {}", kind, lit, printed)
+        }
+        (_, RefNum::NotNumeric) => format!("FAIL:emit literal {} printed as {} which is not a numeric literal", lit, printed),
+    }
+}
+
+fn emit(text: &str, fl: &Flags, out: &mut Out, hist: &mut Hist) {
+    let (obs, oracle) = run_lex(text, fl, hist);
+    out.case(
+        &format!(
+            "C10.lex\tt{}i{}b{}\t{}",
+            if fl.trail { 1 } else { 0 },
+            if fl.inc { 1 } else { 0 },
+            fl.base,
+            hex(text.as_bytes())
+        ),
+        &obs,
+        &oracle,
+    );
+}
+
+pub fn run(args: &Args, out: &mut Out) {
+    // a panic in the harness' own generator/oracle code must not pass silently (the hook swallows messages)
+    if let Err(p) = guard(|| run_inner(args, out)) {
+        out.finish();
+        eprintln!("C10 harness bug: {}", p);
+        std::process::exit(3);
+    }
+}
+
+fn run_inner(args: &Args, out: &mut Out) {
+    let mut hist = Hist::default();
+    if let Some(lines) = args.request_lines() {
+        for line in lines {
+            let f: Vec<&str> = line.split('\t').collect();
+            if f.len() == 3 && f[0] == "C10.emit" {
+                let (obs, orc) = run_emit(f[1], f[2]);
+                out.case(&line, &obs, &orc);
+                continue;
+            }
+            if f.len() == 3 && f[0] == "C10.lex" {
+                let (Some(fl), Some(bytes)) = (parse_flags(f[1]), unhex(f[2])) else {
+                    out.case(&line, "", "SKIP:bad request");
+                    continue;
+                };
+                match String::from_utf8(bytes) {
+                    Ok(text) => emit(&text, &fl, out, &mut hist),
+                    Err(_) => out.case(&line, "", "SKIP:not UTF-8 (the lexer takes &str)"),
+                }
+            }
+        }
+        out.stat(&format!("{{\"mode\":\"replay\",\"hist\":{}}}", hist.json()));
+        return;
+    }
+    let mut rng = Rng::new(args.seed);
+    let plain = Flags { trail: true, inc: false, base: 0 };
+    let mut texts: u64 = 0;
+    // (1) every fixed spelling alone and every ordered pair of a thinned alphabet, glued
+    let mut alphabet: Vec<&str> = Vec::new();
+    for set in [WORDS, IDENTS, OPS, TRIVIA, ODD, STRINGS] {
+        alphabet.extend_from_slice(set);
+    }
+    for a in &alphabet {
+        emit(a, &plain, out, &mut hist);
+        emit(a, &Flags { trail: false, inc: true, base: 3 }, out, &mut hist);
+        texts += 2;
+    }
+    let mut glue: Vec<&str> = Vec::new();
+    for set in [OPS, TRIVIA, ODD, STRINGS] {
+        glue.extend_from_slice(set);
+    }
+    glue.extend_from_slice(&["x", "e5", "1", "0", "1.", ".5", "0x1", "1e", "1u", "1.0f", "if"]);
+    let step = if args.thorough() { 1 } else { 3 };
+    let off = (args.seed % step) as usize;
+    let mut k = 0usize;
+    for a in &glue {
+        for b in &glue {
+            k += 1;
+            if (k + off) % step as usize != 0 {
+                continue;
+            }
+            emit(&format!("{}{}", a, b), &plain, out, &mut hist);
+            texts += 1;
+        }
+    }
+    hist.add("phase.exhaustive_done");
+    // (2) random token soups with arbitrary trivia
+    let n_text = args.n.unwrap_or(if args.thorough() { 300_000 } else { 20_000 });
+    for _ in 0..n_text {
+        let len = rng.range(1, 10) as usize;
+        let mut s = String::new();
+        for _ in 0..len {
+            s.push_str(&gen_item(&mut rng, &mut hist));
+            if rng.chance(1, 3) {
+                s.push_str(*rng.pick(TRIVIA));
+            }
+        }
+        let fl = Flags { trail: !rng.chance(1, 5), inc: rng.chance(1, 6), base: if rng.chance(1, 4) { rng.range(1, 9) as u32 } else { 0 } };
+        hist.add(&format!("text.len{}", (s.len() / 16) * 16));
+        emit(&s, &fl, out, &mut hist);
+        texts += 1;
+    }
+    // (3) numeric stream: one numeral per text (followed by a separator half of the time)
+    let n_num = if args.thorough() { 1_000_000 } else { 20_000 };
+    let n_num = args.n.map(|n| n * 2).unwrap_or(n_num);
+    for i in 0..n_num {
+        let mut s = if i % 2 == 0 { gen_int(&mut rng, &mut hist) } else { gen_float(&mut rng, &mut hist) };
+        if rng.chance(1, 2) {
+            s.push_str(*rng.pick(&[";", " ", "\n", ")", "+1", ",", "\r\n", ".x", "//"][..]));
+        }
+        emit(&s, &Flags { trail: rng.chance(1, 2), inc: false, base: 0 }, out, &mut hist);
+        texts += 1;
+    }
+    // (4) literals through the whole compiler: the value must appear unchanged in the emitted HLSL
+    //     (suffixes l / ul are left out: 64-bit integer constants are `unimplemented!` in ir_types.rs)
+    let n_emit = if args.thorough() { 40_000 } else { 1_500 };
+    let n_emit = args.n.map(|n| n / 8).unwrap_or(n_emit);
+    let mut emitted = 0u64;
+    while emitted < n_emit {
+        let lit = if emitted % 2 == 0 { gen_int(&mut rng, &mut hist) } else { gen_float(&mut rng, &mut hist) };
+        let low = lit.to_ascii_lowercase();
+        if !low.starts_with("0x") && (low.ends_with('l') && !low.contains('.') && !low.contains('e')) || low.ends_with("ul") || low.ends_with("lu") || (low.starts_with("0x") && low.ends_with('l')) {
+            continue;
+        }
+        emitted += 1;
+        let (obs, orc) = run_emit("-", &lit);
+        hist.add(if orc.starts_with("SKIP") { "emit.rejected" } else { "emit.compiled" });
+        out.case(&format!("C10.emit\t-\t{}", lit), &obs, &orc);
+    }
+    out.stat(&format!("{{\"texts\":{},\"emitted\":{},\"hist\":{}}}", texts, emitted, hist.json()));
 }
